@@ -33,6 +33,7 @@ def job(sub, runtime, budget, named, links=False):
         raise Inconclusive('start did not return a coroutine')
     st = outs[0].st
     ccell = st.alloc(outs[0].val)
+    st_cancel = st.fork()
     res = ar.drive(I, st, ccell, 3, 'st')
     sub.absorb(I)
     sub.paths += len(res)
@@ -70,9 +71,59 @@ def job(sub, runtime, budget, named, links=False):
                       on_cex=lambda m, s=s: replay(tag, s.trace, named, True))
         lp.record(sub, name, s, claims, 'C08.start', sample={'cause': cause, 'effects': [e[1] for e in s.trace if e[0] == 'FX']},
                   on_cex=lambda m, s=s, refused=refused: replay(tag, s.trace, named, refused))
+    # the spawning future itself is dropped at an await point (a timeout around spawn, an aborted spawning task): everything the start coroutine holds
+    # at that suspension point is dropped - the lifecycle guard (its real Drop runs the clean-up), the port set, the pending pre_start future
+    n_cancel = 0
+    frontier = [(st_cancel, 0)]
+    while frontier:
+        s0, n = frontier.pop()
+        for o in lc.poll_coro(I, s0, ccell):
+            if o.kind != 'ret' or o.val.variant == 'Ready' or n + 1 >= 3:
+                continue
+            cs = o.st.fork()
+            active = None
+            for e in cs.trace:
+                if e[0] == 'CB' and e[1] == 'start':
+                    active = e
+                elif e[0] == 'CB' and e[1] in ('end', 'cancelled') and active is not None and e[3] == active[3]:
+                    active = None
+            if active is not None:
+                cs.emit('CB', 'cancelled', active[2], active[3])
+            cs.emit('START_CANCELLED')
+            co = I.read(cs, ccell, ())
+            for d in I.drop_value(cs, co, Ref(ccell, (), True)):
+                n_cancel += 1
+                name = '%s.start_cancelled.poll%d.path%d' % (tag, n + 1, n_cancel)
+                if d.kind != 'ret':
+                    lp.record(sub, name, d.st, {'dropping_the_start_future_never_unwinds': False}, 'C08.start_cancelled', on_cex=lambda m: replay_cancelled(named, links))
+                    continue
+                claims = lo.failed_spawn_claims(I, a, d.st, d.st.trace, named)
+                lp.record(sub, name, d.st, claims, 'C08.start_cancelled', sample={'cancelled_at_poll': n + 1, 'effects': [e[1] for e in d.st.trace if e[0] == 'FX']},
+                          on_cex=lambda m: replay_cancelled(named, links))
+            lc.refresh_ports(I, o.st, 'stc%d_%d' % (n + 1, n_cancel))
+            frontier.append((o.st, n + 1))
+    sub.paths += n_cancel
+    sub.note_witness('C08.%s.start_future_cancelled_at_an_await' % tag, n_cancel > 0)
     for c in ('pre_start_err', 'pre_start_panic', 'killed_during_start', 'refused_link'):
         sub.note_witness('C08.%s.cause_%s' % (tag, c), c in causes)
     sub.note_witness('C08.%s.successful_start_exists' % tag, n_ok > 0)
+
+
+def start_cancel_battery(ctx):
+    import life_replay
+    try:
+        n = 0
+        for named in (False, True):
+            for links in (False, True):
+                bad, log = life_replay.replay_start_cancelled(named, links)
+                n += 1
+                if bad:
+                    rec = {'name': 'start_cancelled.native.%s%s' % ('named' if named else 'anon', '.links' if links else ''), 'group': 'C08.start_cancelled', 'solver_s': 0.0, 'status': 'cex'}
+                    ctx.obligations.append(rec)
+                    ctx.handle_cex(rec['name'], 'C08.start_cancelled.native', None, lambda _m, named=named, links=links: replay_cancelled(named, links), rec)
+        ctx.translator_validated += n
+    except RuntimeError as e:
+        ctx.inconclusive.append('start-cancel native battery unavailable: %s' % str(e)[-300:])
 
 
 def ports_drop_check(ctx, prog):
@@ -102,6 +153,13 @@ def ports_drop_check(ctx, prog):
     ctx.note_witness('C08.ports_drop.flushes_a_queued_item', flushed_any)
 
 
+def replay_cancelled(named, links):
+    import life_replay
+    bad, log = life_replay.replay_start_cancelled(named, links)
+    return {'replayed': bool(bad), 'detail': 'native spawn future dropped during pre_start (named=%s, pre_start links=%s) -> %s ; violated %s' % (named, links, log, bad),
+            'replay': {'which': 'start_cancelled', 'named': named, 'links': links}}
+
+
 def replay(tag, trace, named, sup_dead):
     import life_replay
     return life_replay.replay_trace(tag, trace, 'C08', sup=True, sup_dead=sup_dead, named=named)
@@ -116,13 +174,22 @@ def run(ctx):
         lp.encoded(ctx, prog, rt)
     ctx.bounds.update(lp.COMMON_BOUNDS)
     ctx.bounds['instances'] = [dict(zip(('runtime', 'poll_budget', 'named', 'pre_start_links_itself_to_another_actor'), i)) for i in insts]
-    ctx.bounds['outside'] += '; cancellation of the start future at an arbitrary await (drop shims) - only the guard Drop itself is exercised (C04.guard); name clashes (C10)'
+    ctx.bounds['outside'] += '; name clashes (C10)'
+    ctx.bounds['start_future_cancelled'] = ('the start coroutine is dropped at each of its suspension points within the poll budget (pre_start pending; thread-local: also the hand-over to the '
+                                            'spawner thread): what it holds there - lifecycle guard, port set, pending user future - is dropped generically (saved locals of the current state, then the upvars), '
+                                            'the guard through its real Drop; the order among these drops is not the compiler\'s drop-shim order')
     ctx.assumptions += lp.COMMON_ASSUMPTIONS
     ports_drop_check(ctx, prog)
     ctx.parallel(job, insts)
+    start_cancel_battery(ctx)
 
 
 def replay_file(path):
     import json
     import life_replay
-    return life_replay.replay_from_json(json.load(open(path)))
+    d = json.load(open(path))
+    if (d.get('replay') or {}).get('which') == 'start_cancelled':
+        bad, log = life_replay.replay_start_cancelled(d['replay']['named'], d['replay']['links'])
+        print('native spawn future dropped during pre_start:', log, bad)
+        return 1 if bad else 0
+    return life_replay.replay_from_json(d)
